@@ -13,39 +13,34 @@ Definition pairs_same (l1 l2 : list (string * string)) : bool :=
   pairs_incl l1 l2 && pairs_incl l2 l1.
 
 (* ---- names: the answers of the allocator to a history of requests, up to
-   and including the first error *)
-Fixpoint run_names (ops : list op) (s : nstate) : list string * bool :=
+   and including the first error; [dry] = the dry run of append mode *)
+Definition step_for (dry : bool) := if dry then step_dry else step.
+
+Fixpoint run_names (dry : bool) (ops : list op) (s : nstate) : list string * bool * nstate :=
   match ops with
-  | [] => ([], false)
+  | [] => ([], false, s)
   | o :: r =>
-    match step s o with
-    | Err _ => ([], true)
-    | Ok (s1, n, _) => let (l, e) := run_names r s1 in (n :: l, e)
+    match step_for dry s o with
+    | Err _ => ([], true, s)
+    | Ok (s1, n, _) => let '(l, e, s2) := run_names dry r s1 in (n :: l, e, s2)
     end
   end.
-
-Definition final_state (ops : list op) : option nstate :=
-  match run ops n_init with Ok (s, _) => Some s | Err _ => None end.
 
 Definition names_same (l1 l2 : list string) : bool :=
   forallb (fun x => mem x l2) l1 && forallb (fun x => mem x l1) l2.
 
-(* case: requests, names answered, whether the history ended in an error,
+(* case: dry run?, requests, names answered, whether the history ended in an error,
    final ncvar_names, final ncdim_to_size *)
 Definition check_names
-  (c : list op * list string * bool * list string * list (string * Z)) : bool :=
-  let '(ops, names, failed, vars_, dims_) := c in
-  let (l, e) := run_names ops n_init in
+  (c : bool * list op * list string * bool * list string * list (string * Z)) : bool :=
+  let '(dry, ops, names, failed, vars_, dims_) := c in
+  let '(l, e, s) := run_names dry ops n_init in
   list_eqb String.eqb l names && Bool.eqb e failed &&
   (if failed then true else
-     match final_state ops with
-     | None => false
-     | Some s =>
-       names_same (n_vars s) vars_ &&
-       names_same (map fst (n_dims s)) (map fst dims_) &&
-       forallb (fun d => match assoc (fst d) (n_dims s) with
-                         | Some z => Z.eqb z (snd d) | None => false end) dims_
-     end).
+     names_same (n_vars s) vars_ &&
+     names_same (map fst (n_dims s)) (map fst dims_) &&
+     forallb (fun d => match assoc (fst d) (n_dims s) with
+                       | Some z => Z.eqb z (snd d) | None => false end) dims_).
 
 (* the allocator as it was before the fix (for Refuted.v and the corpus) *)
 Fixpoint run_names_old (ops : list op) (s : nstate) : list string * bool :=
@@ -166,5 +161,29 @@ Definition check_norm (c : list (option Z) * list Z * result (list Z)) : bool :=
   match norm_chunksizes req shape, obs with
   | Ok l, Ok l' => list_eqb Z.eqb l l'
   | Err _, Err _ => true
+  | _, _ => false
+  end.
+
+(* ---- reference attributes built from the auxiliary coordinates of one field.
+   observed: the auxiliary coordinate names in the data variable's coordinates attribute,
+   and the geometry container's node_coordinates / coordinates / grid_mapping
+   (None = absent, Some [] = an empty attribute) *)
+Definition opt_names_same (a b : option (list string)) : bool :=
+  match a, b with
+  | None, None => true
+  | Some l1, Some l2 => names_same l1 l2 && Nat.eqb (length l1) (length l2)
+  | _, _ => false
+  end.
+
+Definition check_refs
+  (c : list auxc * (option (list string) *
+                    option (list string * option (list string) * option (list string)))) : bool :=
+  let '(auxs, (ocoords, ocont)) := c in
+  opt_names_same (coordinates_attr auxs) ocoords &&
+  match container_of auxs, ocont with
+  | Ok None, None => true
+  | Ok (Some g), Some (n, co, gm) =>
+    opt_names_same (Some (g_nodes g)) (Some n) && opt_names_same (g_coords g) co &&
+    opt_names_same (g_gm g) gm
   | _, _ => false
   end.
